@@ -16,7 +16,10 @@ PROP = dict(
         subs=[dict(sub="conc", n_quick=400, n_thorough=34000)],
         thorough_seeds=3,
         rule="per run of n: 15% of n (quick; 3% thorough) real starts/shutdowns in a race-detector child process - scan: 2-40 components, "
-             "k = 0-5 scanners failing at a barrier; every 5th: close with 0-16 closers, random error subset; n/20 (max 40) forced "
+             "k = 0-5 scanners failing at a barrier; every 5th: close with 0-16 closers, random error subset; 4 (thorough 24) FIRST starts `fstart <n> <kinds> <seed>`, "
+             "each in its own fresh race-detector child process: one dependency + n (8-48, sometimes 2-7) components carrying wire / "
+             "value / prop / logger tags in 1-4 shapes, so that many components share a tag text which the parallel scan meets "
+             "for the first time in that process; n/20 (max 40) forced "
              "schedules (LoadOrStoreFn with both callers past the Load; Range with deletes after a visits); n recorded histories: object "
              "sync2.Map (50%), ConcurrentSets, GenericConcurrentSets; 2-4 goroutines x 1-3 calls (max 8) over 2-3 keys, random "
              "Gosched inside calls; histories are compared lin/nonlin between the harness checker and the model's checker; "
